@@ -194,6 +194,7 @@ def rule_dup(ctx):
     rep.floor('section merges', len(merges), 2)
     asserts = [n for n in A.walk_local(fn) if isinstance(n, ast.Assert)]
     defs = flow.assigned_names(fn)
+    taken = set()    # the variable(s) holding the names already taken, bound by their role in the overlap test
     for m in merges:
         incoming = m.args[0] if m.args else None
         sect = None
@@ -213,7 +214,9 @@ def rule_dup(ctx):
                     if getattr(d, 'lineno', 0) > a.lineno:
                         continue
                     s = A.src(d)
-                    if sect and ('[%r]' % sect) in s and ('intersection' in s or '&' in s) and 'dataset_names' in s:
+                    others = [x.id for x in ast.walk(d) if isinstance(x, ast.Name) and x.id in defs and x.id != nm]
+                    if sect and ('[%r]' % sect) in s and ('intersection' in s or '&' in s) and others:
+                        taken.update(others)
                         # the most recent definition before the assert must be this one
                         later = [d2 for d2 in defs.get(nm, []) if d.lineno < getattr(d2, 'lineno', 0) <= a.lineno]
                         if not later:
@@ -222,7 +225,7 @@ def rule_dup(ctx):
                ok, m, '' if ok else 'the %r section is merged without a dominating assertion that its names do not '
                'collide with the accumulated dataset and alias names' % sect)
     # the accumulated names contain both datasets and aliases
-    dn = defs.get('dataset_names', [])
+    dn = [d for t in taken for d in defs.get(t, [])]
     ok = bool(dn) and all("'datasets'" in A.src(d) and "'alias'" in A.src(d) for d in dn)
     rep.ob('DUP', 'database._merge_database_dicts::names=datasets|aliases', ok, dn[0] if dn else fn,
            '' if ok else 'the set of taken names must include dataset names and alias names')
@@ -242,7 +245,8 @@ def rule_dup(ctx):
                 for nm in names:
                     for d in flow.assigned_names(ge).get(nm, []):
                         s = A.src(d)
-                        if 'intersection' in s and 'examples' in s and 'examples_new' in s:
+                        spread = [A.src(v) for k, v in zip(u.value.keys, u.value.values) if k is None]
+                        if 'intersection' in s and all(sp in s for sp in spread):
                             ok = True
                 if 'len(' in A.src(a.test) and '== 0' not in A.src(a.test) and 'not ' not in A.src(a.test):
                     ok = False
@@ -281,8 +285,8 @@ def rule_aug(ctx):
     # the non-alias branch copies the dataset dict before augmenting
     ok = False
     for n in A.walk_local(ge):
-        if isinstance(n, ast.Assign) and A.is_name(n.targets[0], 'examples') and isinstance(n.value, ast.Dict) \
-                and len(n.value.keys) == 1 and n.value.keys[0] is None:
+        if isinstance(n, ast.Assign) and isinstance(n.targets[0], ast.Name) and isinstance(n.value, ast.Dict) \
+                and len(n.value.keys) == 1 and n.value.keys[0] is None and "['datasets']" in A.src(n.value.values[0]):
             ok = True
     rep.ob('AUG', 'database.Database.get_examples::dataset-dict-copied-before-augmentation', ok, ge,
            '' if ok else 'a plain dataset must be shallow-copied ({**...}) before its entries are replaced')
